@@ -65,6 +65,18 @@ CLAIMS = {
   text="Kernel-checked theorems (Props/C10.lean) on the same model: for a missing, unreadable, ill-typed or foreign-version cache the scan completes, analyses everything, reports exactly the fresh result and leaves a usable honest cache; the same after any interleaving of faults, edits and scans; a truncated write (any prefix of the document) is harmless given the byte contract (round trip; proper prefixes are junk unless only whitespace is cut). Correspondence/fault enumeration on the real code: truncation at every byte offset, every key removed at every level, every value replaced by values of other JSON types, junk texts, cache directory without file/markers, random fault/edit/scan histories.",
   note="The byte contract is a hypothesis of truncated_write_harmless (C08 proves the round trip for the JSON model; prefix-junk is checked exhaustively by this run). Marker files are observed only.",
   design="6/C10", technique="Lean 4 proof (fault operations preserve the cache invariant) + exhaustive fault enumeration on the real code"),
+ "C08": dict(
+  text="Kernel-checked theorems (Props/C08.lean) about a character-exact model of ReportWriter (pretty and compact), json.dumps string escaping, a total pushdown model of json.loads on the emitted subset, and ReportReader: for every report whose strings contain no adjacent (high, low) surrogate pair, both forms parse to the same value (valid_json), reading back restores version/uuid/root/repository/files in order with checksum, language, loc and measurements and rebuilds totals and tree (read_back, round_trip), re-writing reproduces the document up to the timestamp (rewrite_stable), and NO proper prefix of an emitted document parses unless only trailing whitespace is cut (no_proper_prefix_parses - the byte contract of C10). Correspondence: the real writer character by character, json.loads vs the model parser incl. truncations and mutations, the real reader incl. structural faults.",
+  note="`arbitrary Unicode strings` is read as: no adjacent lone high+low surrogate pair (json joins them; kernel-checked counterexample surrogate_pair_not_preserved; unreachable from file names or decoded text). The Codebase construction is an abstract deterministic parameter `build` here (proved in C07).",
+  design="6/C08", technique="Lean 4 proof over writer/parser/reader models + character-level correspondence"),
+ "C11": dict(
+  text="Kernel-checked theorems (Props/C11.lean) about a model of scan_path over inductive directory trees with the external libraries as oracle parameters (excluded = pathspec on built-in + configured + .gitignore patterns, langOf = Pygments lexer lookup): the scanned key set is exactly the files with no hidden component, not excluded, of a supported language, each exactly once with language and checksum; analyse is applied only to those; files outside the set are irrelevant; listing order is irrelevant. The 26 built-in exclusions and the three exclusion sources are regenerated from the source (Gen/Excludes.lean) and pinned. Correspondence: real scan_path on random trees x exclusion sources (option, config file, .gitignore) x six root forms, with _analyze_file instrumented; direct oracle recomputed from the property text; twin tree with only the qualifying files.",
+  note="Trusted: Lean kernel; harness; translator/excludes.py. pathspec and Pygments are oracle parameters answered by the real libraries per path.",
+  design="6/C11", technique="Lean 4 proof over a tree-walk model with library oracles + correspondence on real directory trees"),
+ "C12": dict(
+  text="Kernel-checked theorems (Props/C12.lean) on the same model plus check_command/_handle_file_path/check_file: with the working directory at the root, for a relative file path, its parent directory, the root and an absolute directory, check lists exactly the functions longer than 30 (generated threshold) that scan measures for the file, longest first (stable), with the same decoding; excluded files are skipped however reached, hidden files when reached through a directory, every scanned file is checked (check_root_agrees_with_scan, scanned_file_checked_by_path/through_directory, excluded_file_skipped, hidden_file_skipped_through_directory). Correspondence: real check_command output vs scan_path on random trees for every file and every way of reaching it.",
+  note="Outside the property and recorded, not judged: absolute file arguments get no exclusion test; hidden components of the directory argument itself are not tested; directories outside the working directory get no exclusions.",
+  design="6/C12", technique="Lean 4 proof relating the check and scan selection models + correspondence on real trees"),
 }
 
 NA_REASON = "check under construction in this round (see DESIGN.md section 6); not yet claimed"
